@@ -144,7 +144,8 @@ FoldMin(s, i) == IF i = Len(s) THEN Q(s[i]) ELSE QMin(Q(s[i]), FoldMin(s, i + 1)
 SameSeqKind(x, y) == (x[1] = "l" /\ y[1] = "l") \/ (IsTup(x) /\ IsTup(y))
 \* Horner: digits(d1, .., dn) = ((d1 * 10 + d2) * 10 + ..) + dn -- order-sensitive in every position
 RECURSIVE Dig(_, _, _)
-Dig(s, i, acc) == IF i > Len(s) THEN acc ELSE Dig(s, i + 1, QAdd(QMul(QInt(10), acc), Q(s[i])))
+Dig(s, i, acc) == IF i > Len(s) \/ IAbs(acc[1]) > MaxNum THEN acc      \* too large: Num() turns it into ErrOut
+                  ELSE Dig(s, i + 1, QAdd(QMul(QInt(10), acc), Q(s[i])))
 RECURSIVE CountEq(_, _, _)
 CountEq(s, x, i) == IF i > Len(s) THEN 0 ELSE (IF s[i] = x THEN 1 ELSE 0) + CountEq(s, x, i + 1)
 
